@@ -310,6 +310,30 @@ func (p *c01) RunCase(ctx *runner.Ctx) runner.CaseResult {
 			}
 		case 3:
 			op = mon.RemoveUpdate(spec.Name, k, mon.Pick(r, mon.AttrNames))
+			if r.Intn(4) == 0 {
+				// edit the list the other updates grow: drop an element and overwrite (or append) another one in ONE
+				// request, clauses in either order - every index refers to the list as it was before the request
+				ri, si := r.Intn(4), r.Intn(6)
+				if si == ri {
+					si++
+				}
+				u := &refmodel.Update{Actions: []refmodel.Action{
+					{Kind: "REMOVE", Path: refmodel.Path{{Name: "lg"}, {IsIdx: true, Idx: ri}}},
+					{Kind: "SET", Path: refmodel.Path{{Name: "lg"}, {IsIdx: true, Idx: si}}, RHS: &refmodel.UExpr{Kind: "val", Val: ":v"}},
+				}}
+				if r.Intn(3) == 0 {
+					// (a third index, distinct from the other two: paths that overlap are refused by DynamoDB)
+					ti := r.Intn(6)
+					for ti == ri || ti == si {
+						ti++
+					}
+					u.Actions = append(u.Actions, refmodel.Action{Kind: "REMOVE", Path: refmodel.Path{{Name: "lg"}, {IsIdx: true, Idx: ti}}})
+				}
+				if r.Intn(2) == 0 {
+					u.ClauseOrder = []string{"SET", "REMOVE"}
+				}
+				op = adapt.Op{Kind: adapt.OpUpdate, Table: spec.Name, Key: k, Update: u.Render(map[string]string{}, refmodel.RenderOpts{}), UpdAST: u, Values: val.Item{":v": val.Str(fmt.Sprint("edited", i))}}
+			}
 		case 4:
 			op = mon.AddUpdate(spec.Name, k, "n", val.Num(mon.Pick(r, []string{"1", "2", "-1", "10"})))
 			if r.Intn(3) == 0 {
